@@ -39,14 +39,14 @@ var propTable = map[string]*propSpec{
 	},
 	"C01": {
 		ID:    "C01",
-		Rules: []string{"R-REGTABLE", "R-BITS", "R-DISPATCH", "R-NILNIL", "R-SCOPE", "R-PRIVREG", "R-PAREN"},
+		Rules: []string{"R-REGTABLE", "R-BITS", "R-DISPATCH", "R-NILNIL", "R-SCOPE", "R-PRIVREG", "R-PAREN", "R-EVALALL"},
 		Explanation: "Decides structural necessary conditions of 'compiled programs behave as the manual prescribes' — the agreements between the stages of the compile pipeline that must hold for every program, each of which, if broken, miscompiles some program: " +
 			"(R-BITS) every opcode field written by a code.mkType* constructor is read back bit-for-bit by its Get* decoder, fields are disjoint from each other and from the type prefix (symbolic bit-vector evaluation of the constructors and decoders); " +
 			"(R-DISPATCH) every operator constant an emitter can produce has a case in the interpreter loop, ircomp's operator maps send each ops.Op to the code operator of the same name and are total over what astcomp lets through, each interpreter case calls the runtime function of that operator, the Cont/Callable type switches name every implementer, and the compile-time processor witnesses exist; " +
 			"(R-NILNIL) no Lua-callable Go function returns (nil, nil), which the interpreter takes for 'finished'; " +
 			"(R-SCOPE) leaving a scope — by falling out of it, by break or by goto — emits a clear for every register captured as an upvalue, and the VM's clear installs a fresh cell (fresh variables per loop iteration); " +
 			"(R-PRIVREG) a register holding a value the program cannot name is never captured and never handed out twice; " +
-			"(R-PAREN) parentheses truncate every multi-valued expression type (call, '...') to one value.",
+			"(R-PAREN) parentheses truncate every multi-valued expression type (call, '...') to one value; (R-EVALALL) an expression list is compiled in full, also the expressions beyond the number of targets.",
 		NotDecided: "agreement of the implemented semantics with the manual's over all programs (values, evaluation order, the push/receive call protocol, register allocation correctness in general, jump resolution, metamethod selection and coercions): these quantify over program behaviour and are out of reach of a static argument here.",
 		Assumptions: []string{
 			"the frozen tables (operator ↔ runtime function, token ↔ operator) were transcribed from the manual and the code and confirmed by reading",
